@@ -42,6 +42,9 @@ UNIT_HARNESS = {
     'tcp': ('io_harness.rs', 'tcp'),
     'wpcr': ('io_harness.rs', 'wpcr'),
     'il2p': ('io_harness.rs', 'il2p'),
+    'stream': ('io_harness.rs', 'stream'),
+    'au': ('io_harness.rs', 'audec'),
+    'sigmf': ('io_harness.rs', 'sigmf'),
     'io': ('io_harness.rs', 'il2p,s2pdu,wpcr'),
 }
 
